@@ -771,6 +771,10 @@ func (p *Parser) parseContentLength() (err error) {
 			}
 		}
 	}
+	// a Content-Length line without a value is not the same as no line.
+	if vals, ok := p.header[contentLengthHeader]; ok && !p.chunked && len(vals) > 0 && textproto.TrimString(vals[0]) == "" {
+		return fmt.Errorf("%s %q", "bad Content-Length", vals[0])
+	}
 	if cl := p.header.Get(contentLengthHeader); cl != "" {
 		if p.chunked {
 			return ErrUnexpectedContentLength
